@@ -185,6 +185,10 @@ def shape_corpus():
     a(mk("non_utf8_cls", [rx(r"(?-u:[\x80-\xff])"), tok("b")]))
     a(mk("non_utf8_sub", [rx("(?&h)a"), tok("b")], subs=[("h", b"\xfe")]))
     a(mk("uni_wordb", [rx(r"a\b"), tok("b")]))
+    a(mk("non_utf8_skip", [tok("a"), tok("é")], [skip(b"\xc3")]))
+    a(mk("non_utf8_skip_rx", [rx("[a-z]+")], [skip(r"(?-u:[\x80-\xbf])+")]))
+    a(mk("non_utf8_tok", [tok(b"\xe9"), tok("b")]))
+    a(mk("non_utf8_icase", [tok(b"\xc3", icase=True), tok("b")]))
     return D
 
 
